@@ -156,6 +156,34 @@ def run(ctx):
                 bad.append("label-runs")
         if bad:
             ctx.violation("read-back-equals-written-object", dict(case=hvhist.history_json(h), differing=bad, impl_state=r["state"], model_state=mo_state), seam="model readTrad/readAz")
+    # archived find_peaks keyword arguments (not modelled in Lean: implementation-side round trip)
+    for j in range(ctx.budget(24, 240)):
+        kind = "T" if j % 2 == 0 else "A"
+        h = hvhist.build_history(rng, 5000 + j, kind, 0, with_stats=False)
+        m = h["mirror"]; obj = m.obj
+        obj.meta["processing_method"] = "traditional" if kind == "T" else "azimuthal"
+        kw = [dict(prominence=float(rng.uniform(0.2, 2.0))), dict(height=float(rng.uniform(1.5, 4.0))), dict(distance=int(rng.integers(2, 6)))][j % 3]
+        r = hvgen.gen_range(rng, m.freq) if j % 4 else (None, None)
+        obj.update_peaks_bounded(search_range_in_hz=r, find_peaks_kwargs=kw)
+        hs = obj.hvsrs if kind == "A" else [obj]
+        if any(int(np.sum(x.valid_window_boolean_mask)) < 2 or not np.array_equal(x.valid_window_boolean_mask, x.valid_peak_boolean_mask) for x in hs):
+            continue
+        fname = os.path.join(WORK, f"c12_k{j}.csv")
+        try:
+            hvsrpy.write_hvsr_object_to_file(obj, fname)
+            back = hvsrpy.read_hvsr_object_from_file(fname)
+        except hvgen.STAT_ERRS as e:
+            ctx.violation("read-back-equals-written-object", dict(case=dict(kind=kind, freq=m.freq.tolist(), find_peaks_kwargs=kw, range=list(r)), error=str(e)[:100]),
+                          seam="round trip with find_peaks_kwargs")
+            continue
+        finally:
+            if os.path.exists(fname):
+                os.remove(fname)
+        ctx.supporting["kwargs_roundtrips"] = ctx.supporting.get("kwargs_roundtrips", 0) + 1
+        bad = hvgen.cmp_state(hvgen.impl_state(obj), hvgen.impl_state(back))
+        if bad:
+            ctx.violation("read-back-equals-written-object", dict(case=dict(hvhist.history_json(h), find_peaks_kwargs=kw, range=list(r)), differing=bad),
+                          seam="round trip with find_peaks_kwargs")
     # diffuse field
     for j in range(ctx.budget(20, 200)):
         freq = hvgen.gen_freq(rng); amp = hvgen.gen_curve(rng, freq)
